@@ -113,6 +113,7 @@ type proc struct {
 	busy     bool
 	opSeq    int
 	curOp    string
+	curPart  string
 	curIKID  string
 	gen      int // factory generation (restarts)
 }
@@ -134,7 +135,14 @@ type issuedRec struct {
 	payload []byte
 }
 
-func partID(p string) string { return "part-" + p }
+// partID: the second partition's id differs from the first one's by a trailing blank only - distinct partitions all the same
+// (ids are opaque strings; nothing may normalise them)
+func partID(p string) string {
+	if p == "b" {
+		return "part-a "
+	}
+	return "part-" + p
+}
 
 func (r *runner) policy(pc ProcCfg) *appencryption.CryptoPolicy {
 	pol := appencryption.NewCryptoPolicy(
@@ -229,6 +237,7 @@ func (r *runner) payload() []byte {
 func (r *runner) startOp(p *proc, st Step) {
 	p.opSeq++
 	p.curOp = fmt.Sprintf("%s#%d", p.name, p.opSeq)
+	p.curPart = st.Part
 	sess, err := r.session(p, st.Part)
 	if err != nil {
 		p.busy = true
@@ -404,7 +413,7 @@ func (r *runner) finishOp(p *proc, exp *Step, first *opResult) {
 	for res == nil {
 		c, rr := r.next(p)
 		if c != nil {
-			if exp != nil {
+			if exp != nil && r.opt.Strict {
 				r.drift = append(r.drift, fmt.Sprintf("%s: real code makes an extra external call %s(%s) the model does not", p.curOp, c.Kind, c.ID))
 			}
 			r.release(p, c, "none")
@@ -428,6 +437,7 @@ func (r *runner) finishOp(p *proc, exp *Step, first *opResult) {
 		kid := r.w.WrapperOfCiphertext(d.Key.EncryptedKey)
 		ev["ikKid"] = kid
 		ev["ikid"] = d.Key.ParentKeyMeta.ID
+		ev["wantIkid"] = r.keyID("IK", p.curPart) // C03: the data key is wrapped under the IK of THIS partition (documented id)
 		// C02 / C14: the chain must be in the authoritative table right now, with the same key bytes
 		chain := false
 		if row, ok := r.w.Get(d.Key.ParentKeyMeta.ID, d.Key.ParentKeyMeta.Created); ok && r.w.KidOfCiphertext(row.Key) == kid && row.Parent != nil {
@@ -740,6 +750,7 @@ func Replay(inPath, tracePath, outPath string, opt Options, variants []string, c
 		o.SharedNoCache = (n/2)%2 == 1
 		if o.Capacity == 0 && o.Variant != "" && o.Variant != "simple" && (n/5)%2 == 1 {
 			o.SKCapacity = 1 // the IK caches keep their large size; the monitor applies the C20 clauses while one system key exists
+			o.Strict = false // Envelope.tla models caches that hold everything: no call-by-call prediction once a second SK exists
 		}
 		if n%3 == 0 {
 			o.Suffix = "us-west-2" // region-suffixed key ids (a metastore exposing GetRegionSuffix)
